@@ -102,7 +102,7 @@ claim('C08',
       "the formal power series of Spec/ExpSeries.v): block structure of powers, Phi = the same series in F alone, "
       "coefficients of Qd = term-by-term integral of e^{Fs} Q e^{F^T s} (every coefficient below the truncation order), "
       "symmetry, zero step, composition law and partition independence under the semigroup law, which the formal "
-      "series is proved to obey. Partial: PSD of Qd is proved only for the zero-dynamics instance; the identification "
+      "series is proved to obey. Partial: PSD of Qd is proved for the zero-dynamics instance, and under the laws of the exact exponential Qd(0)=0 and PSD on one step h implies PSD on every multiple k h (so only PSD on an arbitrarily short initial step is left unproved); the identification "
       "of scipy's expm with the limit of the series (rounding, convergence) is not proved - checked numerically "
       "against an exact-rational Taylor/doubling oracle.",
       COMMON_NOTE + "Matrix tracer gen_mx.py validated each run against the real function.",
